@@ -77,6 +77,8 @@ var (
 	wNFinders            = 1
 	wSymContent          bool
 	wSymMeta             bool
+	wExtras              bool
+	wCrashPoint          func()
 )
 
 func wReset(nPkg, nDeps, nReg int) {
@@ -97,6 +99,7 @@ func wReset(nPkg, nDeps, nReg int) {
 	wRegTarget = map[string]sourceaddrs.RemoteSource{}
 	wEvents = nil
 	wDiagsSeen = nil
+	wExtras = false
 }
 
 // wResetBuild: a second build of the same world (C13): counters and the target directory start
@@ -241,6 +244,9 @@ func (e *wErr) Error() string { return e.msg }
 func (wFetcher) FetchSourcePackage(ctx context.Context, sourceType string, u *url.URL, targetDir string) (FetchSourcePackageResponse, error) {
 	i := wPkgIndex(u)
 	wFetchCount[i]++
+	if wCrashPoint != nil {
+		wCrashPoint()
+	}
 	if wFaults && verif.Fault("fetch") {
 		wFetchFault[i] = true
 		return FetchSourcePackageResponse{}, &wErr{"fetch failed"}
@@ -256,6 +262,11 @@ func (wFetcher) FetchSourcePackage(ctx context.Context, sourceType string, u *ur
 	envWriteFile(targetDir+"/main.tf", 0644, 1000, c)
 	envMkdir(targetDir+"/m", 0755, 1000)
 	envWriteFile(targetDir+"/m/mod.tf", 0644, 1000, c+"m")
+	if wExtras { // odd modes, an empty directory, an in-package link
+		envWriteFile(targetDir+"/secret", 0600, 1000, "s")
+		envMkdir(targetDir+"/empty", 0711, 1000)
+		envSymlink(targetDir+"/lnk", "main.tf", 1000)
+	}
 	m, ok := wMeta[i]
 	if !ok {
 		if wSymMeta {
